@@ -67,7 +67,14 @@ def check(model, rep, tier):
         core.dotted(c.func) == 'ast_util.copy_clean']
   rets = [r for r in ast.walk(prep.node) if isinstance(r, ast.Return)]
   rd = tpl.rdefs(prep.node)
-  keyp = prep.params()[1]
+  # the key parameter, by role: the one self.replacements is subscripted with
+  keyps = [p_ for p_ in prep.params() if any(
+      isinstance(x, ast.Subscript) and core.norm(x.value) == 'self.replacements' and
+      core.norm(x.slice) == p_ for x in ast.walk(prep.node))]
+  if len(keyps) != 1:
+    raise core.AnalysisError('_prepare_replacement: key parameter not identified')
+  keyp = keyps[0]
+  key_index = prep.params().index(keyp)
   ok = len(cc) == 1 and tpl.xnorm(prep, cc[0].args[0], cc[0]) == \
       'self.replacements[%s]' % keyp
   if ok:
@@ -155,7 +162,15 @@ def check(model, rep, tier):
   vn = rt.methods['visit_Name']
   nprm = vn.params()[0]
   n1, b1 = pat.first(vn.node, '_A_ = ContextAdjuster(type(%s.ctx))' % nprm)
-  n2, b2 = pat.first(vn.node, '_NN_ = self._prepare_replacement(%s, %s.id)' % (nprm, nprm))
+  b2 = None
+  for a_ in ast.walk(vn.node):
+    if isinstance(a_, ast.Assign) and isinstance(a_.value, ast.Call) and core.norm(
+        a_.value.func) == 'self._prepare_replacement' and isinstance(
+            a_.targets[0], ast.Name):
+      ka = a_.value.args[key_index] if len(a_.value.args) > key_index else next(
+          (k.value for k in a_.value.keywords if k.arg == keyp), None)
+      if ka is not None and core.norm(ka) == nprm + '.id':
+        b2 = {'_NN_': a_.targets[0].id}
   ok = b1 is not None and b2 is not None
   if ok:
     loops = [l for l in ast.walk(vn.node) if isinstance(l, ast.For) and
